@@ -324,6 +324,50 @@ func gen(args []string) {
 		for _, p := range prefixes {
 			rec(p, *n)
 		}
+	case "typo":
+		// a keyword (or an upper-case contextual word) of a valid statement misspelt into an identifier: reaches the
+		// "expected X, got IDENT" branches of every clause parser, multi-line variants included
+		data, err := os.ReadFile(*corpus)
+		if err != nil {
+			fmt.Fprintln(os.Stderr, err)
+			os.Exit(2)
+		}
+		lines := strings.Split(strings.TrimRight(string(data), "\n"), "\n")
+		for i := 0; i < *n; i++ {
+			l := lines[r.intn(len(lines))]
+			toks, kinds := tokenTextsKinds([]byte(l))
+			var idx []int
+			for j, k := range kinds {
+				if k.IsKeyword() || (k == token.IDENT && len(toks[j]) >= 3 && toks[j] == strings.ToUpper(toks[j]) && toks[j] != strings.ToLower(toks[j])) {
+					idx = append(idx, j)
+				}
+			}
+			if len(idx) == 0 {
+				continue
+			}
+			j := idx[r.intn(len(idx))]
+			w := toks[j]
+			k := r.intn(len(w))
+			switch r.intn(4) {
+			case 0:
+				w = w[:k] + w[k:k+1] + w[k:] // doubled letter
+			case 1:
+				w = w[:k] + w[k+1:] // dropped letter
+			case 2:
+				w = w + "X"
+			default:
+				w = "X" + w
+			}
+			if w == "" {
+				w = "x"
+			}
+			toks[j] = w
+			sep := " "
+			if r.intn(3) == 0 {
+				sep = "\n  "
+			}
+			fmt.Fprintln(out, hx([]byte(strings.Join(toks, sep))))
+		}
 	case "litsub":
 		// literal substitution: a NUMBER / STRING token of a (valid) corpus statement replaced by a boundary literal of
 		// the same class; the statement stays valid, so the boundary value reaches the printers and the marshaller
